@@ -125,7 +125,7 @@ Lemma step_ok : forall s o, InvA s -> guard NH true false s o ->
 Proof.
   intros s o IA [_ G]. pose proof IA as [I Ac]. destruct (acyclic_bounded s Ac) as [rank Rk].
   assert (TRIV : Inv s /\ K0 s s) by (split; [auto | apply K0_refl]).
-  destruct o as [k d|p key c|p key|p l|p key|p key|n|n|n|n|n|n]; unfold step.
+  destruct o as [k d|p key c|p key|p l|p key|p key|n|n|n|n|n|n|n d]; unfold step; try (destruct G; fail).
   - (* new *) simpl. split; [apply Inv_new; auto|].
     intros n x' E C. apply nth_app_new in E. destruct E as [[L E]|[-> ->]]; [|discriminate]. exists x'. auto.
   - destruct (setitem s p key c) as [s'|e] eqn:E; simpl; auto.
@@ -198,15 +198,15 @@ Proof.
 Qed.
 
 (* ---- C10: no stale value *)
-Lemma no_stale : forall h o, guarded NH true false [] h -> guard NH true false (final NH true false [] h) o ->
-  let s := final NH true false [] h in
+Lemma no_stale_from : forall s0 h o, InvA s0 -> guarded NH true false s0 h -> guard NH true false (final NH true false s0 h) o ->
+  let s := final NH true false s0 h in
   let s' := fst (step NH true false s o) in
   (forall n, n < length s -> o = OHash n \/ o = OForce n ->
      exists hv, snd (step NH true false s o) = OutHash hv /\ Fresh s' n hv /\ Fresh s n hv) /\
   (forall n es, o = OEntries n \/ o = OToModel n -> snd (step NH true false s o) = OutEntries es ->
      exists x, nth_error s n = Some x /\ FreshKids s' (kids x) es).
 Proof.
-  intros h o GH GO s s'. pose proof (reachable_inv h [] InvA_init GH) as IA. fold s in IA.
+  intros s0 h o IA0 GH GO s s'. pose proof (reachable_inv h s0 IA0 GH) as IA. fold s in IA.
   pose proof IA as [I Ac]. destruct (acyclic_bounded s Ac) as [rank Rk].
   split.
   - intros n L [-> | ->]; simpl.
@@ -224,6 +224,16 @@ Proof.
           rewrite E in *; simpl in *; [discriminate|]. inversion Hout; subst. eauto.
       * unfold to_model, get in *. destruct (nth_error s n) eqn:E; [exfalso; apply L; eapply nth_lt; eauto|]. simpl in *. discriminate.
 Qed.
+
+Lemma no_stale : forall h o, guarded NH true false [] h -> guard NH true false (final NH true false [] h) o ->
+  let s := final NH true false [] h in
+  let s' := fst (step NH true false s o) in
+  (forall n, n < length s -> o = OHash n \/ o = OForce n ->
+     exists hv, snd (step NH true false s o) = OutHash hv /\ Fresh s' n hv /\ Fresh s n hv) /\
+  (forall n es, o = OEntries n \/ o = OToModel n -> snd (step NH true false s o) = OutEntries es ->
+     exists x, nth_error s n = Some x /\ FreshKids s' (kids x) es).
+Proof. intros h o. apply (no_stale_from [] h o InvA_init). Qed.
+
 
 (* every child edge has its back-link, in particular after a delete: the
    removal of one link (by identity) leaves the links to the other parents *)
@@ -258,7 +268,7 @@ Proof. intros s s' n x x' E E' C. unfold hash_of. rewrite E, E', C. reflexivity.
 
 Lemma collect_step : forall s root, InvA s -> root < length s ->
   exists s' L, step NH true false s (OCollect root) = (s', OutNodes L) /\ Inv s' /\ cgrow s s' /\
-    (forall m, Reach s root m -> collected_at s' m) /\ flipped s s' L.
+    (forall m, Reach s root m -> collected_at s' m) /\ flipped s s' L /\ (forall m, In m L -> Reach s root m).
 Proof.
   intros s root [I Ac] L. destruct (acyclic_bounded s Ac) as [rank Rk].
   destruct (collect_ok NH rank (S (length s)) root s I Rk L) as (s' & Lc & E & R).
@@ -278,7 +288,7 @@ Proof.
     rewrite (hash_of_K0 s _ n x x' E E' Q). exact Hm. }
   destruct o; try (apply KK; exact K).
   destruct (lt_dec n (length s)) as [L|L].
-  - destruct (collect_step s n IA L) as (s' & Lc & E & Is' & CG & _ & FL). rewrite E. simpl.
+  - destruct (collect_step s n IA L) as (s' & Lc & E & Is' & CG & _ & FL & _). rewrite E. simpl.
     intros m x' E' C'. destruct (F2_nth_r _ _ _ _ _ CG E') as (x & Ex & (_ & Hc & _)).
     destruct (collected x) eqn:Cx.
     + destruct (H5 m x Ex Cx) as (m0 & Hm). exists m0. apply in_or_app. left.
@@ -366,11 +376,103 @@ Proof.
   assert (Es : s1 = s2) by (unfold s1, step; rewrite E; reflexivity).
   pose proof (nr_shape _ _ N) as Sh.
   assert (L1 : root < length s1) by (rewrite Es, <- (F2_len _ _ _ Sh); exact L).
-  destruct (collect_step s1 root IA1 L1) as (s3 & Lc & E3 & _ & CG & CA & FL).
+  destruct (collect_step s1 root IA1 L1) as (s3 & Lc & E3 & _ & CG & CA & FL & _).
   exists Lc. rewrite E3. split; auto. intros n Rn.
   destruct (CA n Rn) as (x3 & Ex3 & Cx3).
   assert (Rn0 : Reach s root n) by (eapply shape_reach; [apply shape_sym; exact Sh | rewrite <- Es; exact Rn]).
   destruct (U n Rn0) as (x1 & Ex1 & Cx1). rewrite <- Es in Ex1. eapply FL; eauto.
+Qed.
+
+(* ---- partial resets, arbitrary later collections *)
+Definition notcoll (s : heap) (x : nat) : Prop :=
+  forall y, nth_error s x = Some y -> collected y = false.
+
+Lemma Reach_lt : forall s r x, Reach s r x -> r < length s /\ x < length s.
+Proof.
+  intros s r x H. induction H as [n L|n k m (y & nm & E & _) _ [_ IH]].
+  - auto.
+  - split; auto. eapply nth_lt; eauto.
+Qed.
+
+(* (a) reset_collect n un-collects everything below n *)
+Lemma reset_uncollects : forall s n x, InvA s -> Reach s n x ->
+  notcoll (fst (step NH true false s (OReset n))) x.
+Proof.
+  intros s n x [I Ac] Rx. destruct (acyclic_bounded s Ac) as [rank Rk].
+  destruct (Reach_lt _ _ _ Rx) as [L _].
+  destruct (reset_ok rank (S (length s)) n s) as (s' & E & N & U); auto.
+  { intros m y nm c. apply (I_wfk NH s (proj1 I)). }
+  { destruct Rk as [_ B]. specialize (B n). lia. }
+  unfold step. rewrite E. simpl. destruct (U x Rx) as (y & Ey & Cy). intros y' Ey'. congruence.
+Qed.
+
+(* (b) frame: collected = false is preserved by every operation except a
+   collect issued at a node that has x below it *)
+Lemma uncollected_frame : forall s o x, InvA s -> guard NH true false s o -> notcoll s x ->
+  (forall r, o = OCollect r -> ~ Reach s r x) -> notcoll (fst (step NH true false s o)) x.
+Proof.
+  intros s o x IA G NC NR. pose proof (step_ok s o IA G) as [_ K].
+  assert (KK : K0 s (fst (step NH true false s o)) -> notcoll (fst (step NH true false s o)) x).
+  { intros K0' y' Ey'. destruct (collected y') eqn:Cy'; auto.
+    destruct (K0' x y' Ey' Cy') as (y & Ey & Cy & _). rewrite (NC y Ey) in Cy. discriminate. }
+  destruct o; try (apply KK; exact K).
+  destruct (lt_dec n (length s)) as [L|L].
+  - destruct (collect_step s n IA L) as (s' & Lc & E & _ & CG & _ & FL & NL). rewrite E. simpl.
+    intros y' Ey'. destruct (collected y') eqn:Cy'; auto. exfalso.
+    destruct (F2_nth_r _ _ _ _ _ CG Ey') as (y & Ey & _).
+    apply (NR n eq_refl). apply NL. eapply FL; eauto.
+  - apply KK. simpl. unfold get. destruct (nth_error s n) eqn:E; [exfalso; apply L; eapply nth_lt; eauto|].
+    simpl. apply K0_refl.
+Qed.
+
+(* (c) collect r returns every node below r whose collected flag is false *)
+Lemma collect_reports_uncollected : forall s r x, InvA s -> Reach s r x -> notcoll s x ->
+  exists s' L, step NH true false s (OCollect r) = (s', OutNodes L) /\ In x L /\
+    exists hv, Fresh s' x hv /\ In (rp s' L x, hv, x) (reports rp s' (OutNodes L)).
+Proof.
+  intros s r x IA Rx NC. destruct (Reach_lt _ _ _ Rx) as [L _].
+  destruct (collect_step s r IA L) as (s' & Lc & E & [I0' I4'] & CG & CA & FL & _).
+  exists s', Lc. split; auto.
+  destruct (CA x Rx) as (y' & Ey' & Cy'). destruct (F2_nth_r _ _ _ _ _ CG Ey') as (y & Ey & _).
+  assert (Hin : In x Lc) by (eapply FL; eauto).
+  split; auto.
+  pose proof (I4' x y' Ey' Cy') as Hy'. destruct (I1 NH s' I0' x y' Ey' Hy') as (hv & Chv & Fhv & _).
+  exists hv. split; auto. simpl. apply in_map_iff. exists x. split; auto.
+  unfold hash_of. rewrite Ey', Chv. reflexivity.
+Qed.
+
+Lemma final_cons : forall s o h, final NH true false s (o :: h) = final NH true false (fst (step NH true false s o)) h.
+Proof.
+  intros s o h. unfold final. simpl. destruct (step NH true false s o) as [s1 x]. simpl.
+  destruct (run NH true false s1 h). reflexivity.
+Qed.
+
+Lemma quiet_run : forall h s x, InvA s -> guarded NH true false s h -> quiet NH true false s h x ->
+  notcoll s x -> notcoll (final NH true false s h) x.
+Proof.
+  induction h as [|o h IH]; intros s x IA G Q NC; [exact NC|].
+  rewrite final_cons. simpl in G, Q. destruct G as [G1 G2]. destruct Q as [Q1 Q2].
+  apply IH; auto.
+  - apply step_inv; auto.
+  - apply uncollected_frame; auto.
+Qed.
+
+(* every node below a reset_collect is owed to the first later collect that
+   has it below its root, whatever happens in between *)
+Lemma reset_partial : forall s rep n, greach s rep -> guard NH true false s (OReset n) ->
+  forall h x r,
+  let s1 := fst (step NH true false s (OReset n)) in
+  Reach s n x -> guarded NH true false s1 h -> quiet NH true false s1 h x ->
+  let s2 := final NH true false s1 h in
+  Reach s2 r x ->
+  exists s3 L, step NH true false s2 (OCollect r) = (s3, OutNodes L) /\ In x L /\
+    exists hv, Fresh s3 x hv /\ In (rp s3 L x, hv, x) (reports rp s3 (OutNodes L)).
+Proof.
+  intros s rep n GR G h x r s1 Rx GH Q s2 Rr. pose proof (greach_inv s rep GR) as [IA _].
+  pose proof (step_inv s (OReset n) IA G) as IA1. fold s1 in IA1.
+  pose proof (reachable_inv h s1 IA1 GH) as IA2. fold s2 in IA2.
+  apply collect_reports_uncollected; auto.
+  apply quiet_run; auto. apply reset_uncollects; auto.
 Qed.
 
 Lemma reports_sound : oracle_ok rp -> forall s' L m hv n, In (m, hv, n) (reports rp s' (OutNodes L)) ->
